@@ -82,6 +82,10 @@ def build(flavour, target):
     th = tree_hash()
     bdir = os.path.join(BUILD_ROOT, th, flavour)
     os.makedirs(bdir, exist_ok=True)
+    try:
+        os.utime(bdir, None)  # "in use now" marker for prune_builds
+    except OSError:
+        pass
     cxx, fl = FLAVOURS[flavour]
     flags = (COMMON.format(repo=REPO, harness=HARNESS) + " " + fl).split()
     binp = os.path.join(bdir, target)
@@ -131,9 +135,20 @@ def prune_builds(keep_hash):
         if REPO != "/repo" and os.path.isdir("/repo/inc"):
             keep.append(tree_hash("/repo"))  # never evict the real tree's build while testing scratch copies
         keep += [d for d in ds if d not in keep][:2]
+        now = time.time()
         for d in ds:
-            if d not in keep:
-                shutil.rmtree(os.path.join(BUILD_ROOT, d), ignore_errors=True)
+            if d in keep:
+                continue
+            # never remove a build that another check may be using right now: anything touched in the last 45 minutes stays
+            newest = 0
+            for dp, dn, fn in os.walk(os.path.join(BUILD_ROOT, d)):
+                try:
+                    newest = max(newest, os.path.getmtime(dp))
+                except OSError:
+                    pass
+            if now - newest < 45 * 60:
+                continue
+            shutil.rmtree(os.path.join(BUILD_ROOT, d), ignore_errors=True)
     except OSError:
         pass
 
@@ -459,9 +474,15 @@ def check_seq_property(prop, tier, seed):
     # (loaded machine, large candidate sets) and the event is recorded as inconclusive, not as a hang.
     unconfirmed_hangs = 0
     confirmed = []
+    hang_reruns = 0
     for c in res.crashes:
         if c["what"] != "hang":
             confirmed.append(c)
+            continue
+        hang_reruns += 1
+        if hang_reruns > 2:
+            # two hangs have already been put through the confirming re-run; the rest are neither counted nor re-run
+            unconfirmed_hangs += 1
             continue
         jp = os.path.join(BUILD_ROOT, "work", "hang-%s-%d-%d.txt" % (prop, os.getpid(), len(confirmed)))
         os.makedirs(os.path.dirname(jp), exist_ok=True)
@@ -469,8 +490,8 @@ def check_seq_property(prop, tier, seed):
             f.write(c["journal"])
         still = False
         try:
-            r = subprocess.run([build(c["flavour"] if c["flavour"] in FLAVOURS else "san", "seq_driver"), "--replay", jp, "--case-timeout", "240"],
-                               capture_output=True, text=True, timeout=600, env=dict(os.environ, **SAN_ENV))
+            r = subprocess.run([build(c["flavour"] if c["flavour"] in FLAVOURS else "san", "seq_driver"), "--replay", jp, "--case-timeout", "90"],
+                               capture_output=True, text=True, timeout=400, env=dict(os.environ, **SAN_ENV))
             still = r.returncode == 98
         except subprocess.TimeoutExpired:
             still = True
